@@ -63,6 +63,13 @@ func (p *proverModel) answer(ctx context.Context, method string, in *proverv1.Ge
 		// the prover proved a shorter range than asked
 		end = in.LastProvenBlock + 1 + (end-in.LastProvenBlock-1)/2
 		p.s.rec.Stats.Inc("prover_shortened_range")
+	} else if span := end - in.LastProvenBlock; !optimistic && span > 1 && (in.LastProvenBlock+in.RequestedEndBlock+p.n)%3 == 0 {
+		// ... and does so on its own for a third of the multi-block requests, cutting anywhere inside the range (what
+		// lies in the cut tail - bridges, claims, both or nothing - is the chain's business). Derived from the request
+		// and the request counter: no draw from the run's PRNG.
+		end = in.LastProvenBlock + 1 + (in.RequestedEndBlock*7+p.n*3)%(span-1)
+		p.s.rec.Stats.Inc("prover_shortened_range")
+		p.s.rec.Stats.Inc("prover_shortened_range_on_its_own")
 	}
 	p.n++
 	var sd [24]byte
